@@ -28,6 +28,7 @@ IsAgg(e) ==
       [] e.k = "bin" -> IsAgg(e.a) \/ IsAgg(e.b)
       [] e.k = "between" -> IsAgg(e.a) \/ IsAgg(e.lo) \/ IsAgg(e.hi)
       [] e.k \in {"and", "or", "call"} -> \E i \in 1..Len(e.args) : IsAgg(e.args[i])
+      [] e.k = "inlist" -> IsAgg(e.a)
       [] OTHER -> FALSE
 RECURSIVE ColsOutsideAgg(_)
 ColsOutsideAgg(e) ==          \* does e read a column that is not below an aggregate?
@@ -36,6 +37,7 @@ ColsOutsideAgg(e) ==          \* does e read a column that is not below an aggre
       [] e.k = "bin" -> ColsOutsideAgg(e.a) \/ ColsOutsideAgg(e.b)
       [] e.k = "between" -> ColsOutsideAgg(e.a) \/ ColsOutsideAgg(e.lo) \/ ColsOutsideAgg(e.hi)
       [] e.k \in {"and", "or", "call"} -> \E i \in 1..Len(e.args) : ColsOutsideAgg(e.args[i])
+      [] e.k = "inlist" -> ColsOutsideAgg(e.a)
       [] OTHER -> FALSE
 RECURSIVE AggOfAgg(_)
 AggOfAgg(e) ==
@@ -44,6 +46,7 @@ AggOfAgg(e) ==
       [] e.k = "bin" -> AggOfAgg(e.a) \/ AggOfAgg(e.b)
       [] e.k = "between" -> AggOfAgg(e.a) \/ AggOfAgg(e.lo) \/ AggOfAgg(e.hi)
       [] e.k \in {"and", "or", "call"} -> \E i \in 1..Len(e.args) : AggOfAgg(e.args[i])
+      [] e.k = "inlist" -> AggOfAgg(e.a)
       [] OTHER -> FALSE
 
 TName(t) == IF t.as # "" THEN t.as ELSE IF t.e.k = "col" THEN t.e.n ELSE "?"
@@ -380,22 +383,47 @@ Flat(q, cols) == IF IsStar(q) THEN [q EXCEPT !.targets = [j \in 1..Len(cols) |->
 RunFlat(q, table, sch, cols) ==
     LET fq == Flat(q, cols) cq == Compile(fq, sch) IN
     IF ~cq.ok THEN [ok |-> FALSE, err |-> cq.err, ood |-> FALSE, names |-> <<>>, types |-> <<>>, rows |-> <<>>]
-    ELSE IF ExecOOD(fq, cq, table, sch) THEN [ok |-> TRUE, err |-> "", ood |-> TRUE, names |-> <<>>, types |-> <<>>, rows |-> <<>>]
-    ELSE [ok |-> TRUE, err |-> "", ood |-> FALSE,
-          names |-> [j \in 1..cq.nvis |-> cq.ts[j].name],
-          types |-> [j \in 1..cq.nvis |-> TypeOf(cq.ts[j].e, sch)],
-          rows |-> Exec(fq, cq, table, sch)]
+    ELSE LET names == [j \in 1..cq.nvis |-> cq.ts[j].name]
+             types == [j \in 1..cq.nvis |-> TypeOf(cq.ts[j].e, sch)] IN
+         IF ExecOOD(fq, cq, table, sch) THEN [ok |-> TRUE, err |-> "", ood |-> TRUE, names |-> names, types |-> types, rows |-> <<>>]
+         ELSE [ok |-> TRUE, err |-> "", ood |-> FALSE, names |-> names, types |-> types, rows |-> Exec(fq, cq, table, sch)]
 AllDistinct(s) == \A i, j \in 1..Len(s) : i # j => s[i] # s[j]
 RECURSIVE Run(_, _, _, _)
+RECURSIVE ResolveE(_, _, _, _)
+(* x [NOT] IN (subquery): the subquery is evaluated once, against the same base table, before the enclosing statement
+   runs; it must compile and have exactly one output column; no row at all makes the result NULL. *)
+InList(a, l, neg) == [k |-> "inlist", a |-> a, l |-> l, neg |-> neg]
+Bad == [k |-> "bad"]
+ResolveE(e, table, sch, cols) ==
+    CASE e.k = "insub" ->
+            LET r == Run(e.q, table, sch, cols) IN
+            IF ~r.ok \/ Len(r.names) # 1 THEN Bad
+            ELSE InList(ResolveE(e.a, table, sch, cols),
+                        IF r.ood THEN OOD ELSE IF r.rows = <<>> THEN Null
+                        ELSE ListV([i \in 1..Len(r.rows) |-> r.rows[i][1]] \o <<>>), e.neg)
+      [] e.k = "un" -> Un(e.op, ResolveE(e.a, table, sch, cols))
+      [] e.k = "bin" -> Bin(e.op, ResolveE(e.a, table, sch, cols), ResolveE(e.b, table, sch, cols))
+      [] e.k = "between" -> Between(ResolveE(e.a, table, sch, cols), ResolveE(e.lo, table, sch, cols), ResolveE(e.hi, table, sch, cols))
+      [] e.k \in {"and", "or"} -> [k |-> e.k, args |-> [i \in 1..Len(e.args) |-> ResolveE(e.args[i], table, sch, cols)] \o <<>>]
+      [] e.k = "call" -> Call(e.f, [i \in 1..Len(e.args) |-> ResolveE(e.args[i], table, sch, cols)] \o <<>>)
+      [] e.k = "agg" -> IF e.a = Star THEN e ELSE Agg(e.f, ResolveE(e.a, table, sch, cols))
+      [] OTHER -> e
+ResolveRef(r, table, sch, cols) == IF r.k = "expr" THEN RefE(ResolveE(r.e, table, sch, cols)) ELSE r
+ResolveQ(q, table, sch, cols) ==
+    [q EXCEPT !.targets = [j \in 1..Len(q.targets) |-> [e |-> ResolveE(q.targets[j].e, table, sch, cols), as |-> q.targets[j].as]] \o <<>>,
+              !.where = IF q.where = NoE THEN NoE ELSE ResolveE(q.where, table, sch, cols),
+              !.having = IF q.having = NoE THEN NoE ELSE ResolveE(q.having, table, sch, cols),
+              !.group = [j \in 1..Len(q.group) |-> ResolveRef(q.group[j], table, sch, cols)] \o <<>>,
+              !.order = [j \in 1..Len(q.order) |-> [r |-> ResolveRef(q.order[j].r, table, sch, cols), desc |-> q.order[j].desc]] \o <<>>]
 Run(q, table, sch, cols) ==
-    IF ~HasSub(q) THEN RunFlat(q, table, sch, cols)
+    IF ~HasSub(q) THEN RunFlat(ResolveQ(q, table, sch, cols), table, sch, cols)
     ELSE LET inner == Run(q.sub, table, sch, cols) IN
          IF ~inner.ok \/ inner.ood THEN inner
          ELSE IF ~AllDistinct(inner.names) \/ Len(q.sub.pivot) # 0 THEN [inner EXCEPT !.ood = TRUE]   \* duplicate / pivoted inner names: not modelled
          ELSE LET n == Len(inner.names)
                   sch2 == [c \in SeqToSet(inner.names) |-> inner.types[PosIn(inner.names, c)]]
                   tab2 == [i \in 1..Len(inner.rows) |-> [c \in SeqToSet(inner.names) |-> inner.rows[i][PosIn(inner.names, c)]]]
-              IN RunFlat(q, tab2, sch2, inner.names)
+              IN RunFlat(ResolveQ(q, table, sch, cols), tab2, sch2, inner.names)   \* IN-subqueries name the base table
 
 -----------------------------------------------------------------------------
 (* Declarative statements (C01 C02 C03 C15) about the result, checked against the mechanism by TLC *)
